@@ -37,7 +37,7 @@ CHECKS = {
          "Mutations that name another outstanding message-id are skipped. A non-returning poll is caught by a 20 s real-time watchdog (class spin).",
          "deterministic simulation: mutated server bytes with other requests outstanding, seeded delivery order"),
  "C01": ("A-sim", "exploration", "DESIGN.md §5 C01",
-         "Histories of 1-6 consecutive runs of the real agent (Updater::run) against FakeJunos + FakeIrrd on a paused tokio clock, the world mutating between runs (IRR data, annotations, activation, names, expressions). After every successful run: committed accept-set per family == reference evaluation, final reject, no stale policy, read-back of the committed state through the agent's own reader; finally one more run with unchanged inputs must succeed and change nothing.",
+         "Histories of 1-6 consecutive runs of the real agent (Updater::run) against FakeJunos + FakeIrrd on a paused tokio clock, the world mutating between runs (IRR data, annotations, activation, names, expressions); one run in four meets a NETCONF fault (success must still imply convergence) and one fault-free run in 60 is made end to end by the agent executable over real TLS / TCP. After every successful run: committed accept-set per family == reference evaluation, final reject, no stale policy, read-back of the committed state through the agent's own reader; finally one more run with unchanged inputs must succeed and change nothing.",
          "Trusted: FakeJunos's merge/delete semantics and get-config dialect (assumptions listed in evidence), the reference evaluator (rpsl + generic-ip over the database), the harness XML parser.",
          "deterministic simulation: run histories against router and IRR models, virtual time, seeded delays and hash order"),
  "C02": ("A-sim", "exploration", "DESIGN.md §5 C02",
